@@ -16,6 +16,7 @@ import (
 	"os"
 	"reflect"
 	"runtime"
+	"strings"
 	"sync"
 	"sync/atomic"
 	"time"
@@ -113,6 +114,7 @@ func runC18(r *Run) {
 	}
 	for h := 0; h < 2*n; h++ {
 		c18AfterFailure(r, h)
+		c18FailedReconnect(r, h)
 	}
 }
 
@@ -735,4 +737,137 @@ func c18AfterFailure(r *Run, h int) {
 		}
 	}
 	r.Case("after-failure", fmt.Sprint(h))
+}
+
+// c18FailedReconnect: a reconnect attempt that fails while the notifications held back during the restart of
+// the monitors are applied. The proxy puts, in front of the reply to the first restarted monitor, a
+// notification that cannot be applied (a modification of a row the client does not hold): the attempt fails
+// after the reply has been applied. The error path must leave nothing behind: the next attempt succeeds,
+// reads return at once and committed changes reach the cache.
+func c18FailedReconnect(r *Run, h int) {
+	rng := r.Rng
+	ts := c18Schema()
+	rig, err := newRig(ts)
+	if err != nil {
+		return
+	}
+	defer rig.Close()
+	px, err := newProxy(rig.sock)
+	if err != nil {
+		return
+	}
+	defer px.Close()
+	ctx, cancel := ctxT(60 * time.Second)
+	defer cancel()
+	row := pairRow(0)
+	row["key"] = VA(AS("r1"))
+	rig.im.transact([]OperationJ{{Op: "insert", Table: "Pair", UUID: mkUUID(1), Row: row}}, nil)
+	writer, _, err := rig.newClient(rig.endpoint())
+	if err != nil || writer.Connect(ctx) != nil {
+		return
+	}
+	defer writer.Close()
+	method := monitorMethods[rng.Intn(3)]
+	var mu sync.Mutex
+	monitorReq := map[string]json.RawMessage{} // session/id -> cookie
+	injected, armed := 0, false
+	px.rewrite = func(session int, toClient bool, raw json.RawMessage) json.RawMessage {
+		var msg struct {
+			Method string            `json:"method"`
+			ID     json.RawMessage   `json:"id"`
+			Params []json.RawMessage `json:"params"`
+			Result json.RawMessage   `json:"result"`
+		}
+		if json.Unmarshal(raw, &msg) != nil {
+			return raw
+		}
+		mu.Lock()
+		defer mu.Unlock()
+		key := fmt.Sprintf("%d/%s", session, msg.ID)
+		if !toClient {
+			if strings.HasPrefix(msg.Method, "monitor") && msg.Method != "monitor_cancel" && len(msg.Params) >= 2 {
+				monitorReq[key] = msg.Params[1]
+			}
+			return raw
+		}
+		if cookie, ok := monitorReq[key]; ok && msg.Method == "" && armed && injected == 0 && len(msg.Result) > 0 && string(msg.Result) != "null" {
+			injected++
+			var bad string
+			if method == "monitor" {
+				bad = fmt.Sprintf(`{"method":"update","params":[%s,{"Pair":{"%s":{"old":{"key":"q"},"new":{"key":"zz"}}}}],"id":null}`, cookie, mkUUID(4242))
+			} else {
+				bad = fmt.Sprintf(`{"method":"update2","params":[%s,{"Pair":{"%s":{"modify":{"key":"zz"}}}}],"id":null}`, cookie, mkUUID(4242))
+			}
+			return append(append([]byte(bad), '\n'), raw...)
+		}
+		return raw
+	}
+	a, adb, err := rig.newClient(px.endpoint(), client.WithReconnect(2*time.Second, backoff.NewConstantBackOff(2*time.Millisecond)))
+	if err != nil || a.Connect(ctx) != nil {
+		return
+	}
+	defer a.Close()
+	if _, err := a.Monitor(ctx, &client.Monitor{Method: method, Tables: []client.TableMonitor{{Table: "Pair"}}, LastTransactionID: "00000000-0000-0000-0000-000000000000"}); err != nil {
+		return
+	}
+	cs := map[string]interface{}{"run": h, "method": method}
+	r.Case("failed-reconnect", fmt.Sprint(h, method))
+	mu.Lock()
+	armed = true
+	mu.Unlock()
+	px.cutNow()
+	// the client comes back (second attempt at the latest)
+	deadline := time.Now().Add(5 * time.Second)
+	for time.Now().Before(deadline) {
+		mu.Lock()
+		done := injected > 0
+		mu.Unlock()
+		if done && a.Connected() {
+			break
+		}
+		time.Sleep(2 * time.Millisecond)
+	}
+	mu.Lock()
+	cs["notifications_injected"] = injected
+	mu.Unlock()
+	// a read with a generous deadline returns at once
+	got := make(chan error, 1)
+	t0 := time.Now()
+	go func() {
+		rctx, rc := ctxT(3 * time.Second)
+		defer rc()
+		got <- a.Get(rctx, adb.NewModel("Pair", mkUUID(1), nil))
+	}()
+	select {
+	case gerr := <-got:
+		if took := time.Since(t0); took > time.Second {
+			r.Violation("failed-reconnect", cs, fmt.Sprintf("Get returned after %v (err=%v)", took, gerr), "an immediate answer", true,
+				"after a reconnect attempt that failed while applying the held-back notifications a read blocks until its context expires", "")
+			return
+		}
+	case <-time.After(6 * time.Second):
+		r.Violation("failed-reconnect", cs, "Get with a 3s context has not returned after 6s", "an answer", true,
+			"after a reconnect attempt that failed while applying the held-back notifications a read never returns", "")
+		return
+	}
+	// a committed change reaches the cache
+	nr := pairRow(77)
+	_, _ = writer.Transact(ctx, OperationJ{Op: "update", Table: "Pair", Where: byUUID(mkUUID(1)), Row: nr}.toOvs())
+	ok := false
+	for try := 0; try < 600 && !ok; try++ {
+		m := adb.NewModel("Pair", mkUUID(1), nil)
+		gctx, gc := ctxT(time.Second)
+		if a.Get(gctx, m) == nil {
+			_, rowNow := adb.RowOf("Pair", m)
+			ok = rowNow["n"] != nil && rowNow["n"].K == 'a' && rowNow["n"].A.I == 77
+		}
+		gc()
+		if !ok {
+			time.Sleep(5 * time.Millisecond)
+		}
+	}
+	if !ok {
+		r.Violation("failed-reconnect", cs, fmt.Sprintf("Connected()=%v, row not updated after 3s", a.Connected()), "the committed change in the cache", true,
+			"after a reconnect attempt that failed while applying the held-back notifications the client does not resynchronise", "")
+	}
 }
